@@ -24,7 +24,9 @@ type vfC20Case struct {
 	Choices []int    `json:"choices"`
 }
 
-var vfC20Points = []string{"dc.close.checked", "dc.open.beforeSet", "dc.readloop.beforeClosed", "pc.close.beforeChannels"}
+// dc.state is both monitored and gated: a goroutine parks between its forward-only check and
+// the store, so another setter can be scheduled into that window.
+var vfC20Points = []string{"dc.close.checked", "dc.open.beforeSet", "dc.readloop.beforeClosed", "pc.close.beforeChannels", "dc.state"}
 
 type vfC20Mon struct {
 	mu       sync.Mutex
@@ -120,7 +122,10 @@ func vfC20Exec(v *vfT, c vfC20Case) (branching []int) {
 		gates.Watch(dA)
 		dA.OnOpen(func() { opens.Add(1) })
 		dA.OnClose(func() { closes.Add(1) })
-		if !vfPairWait(10*time.Second, func() bool { return dA.ReadyState() == DataChannelStateOpen }) {
+		if !vfPairWait(10*time.Second, func() bool {
+			gates.ReleasePoint("dc.state") // setup phase: the opening store is not part of the scenario
+			return dA.ReadyState() == DataChannelStateOpen
+		}) {
 			v.Skip("channel did not open (inconclusive)")
 		}
 	}
@@ -145,9 +150,24 @@ func vfC20Exec(v *vfT, c vfC20Case) (branching []int) {
 		vfPairWait(5*time.Second, func() bool { return dB.ReadyState() == DataChannelStateOpen })
 	}
 	vfSettle(gates, actors)
+	// stores made while the pair was being set up (connecting, open of a late channel) are not part of the scenario
+	for gates.ReleasePoint("dc.state") {
+		vfSettle(gates, actors)
+	}
 
 	started := map[string]bool{}
+	sampled := []DataChannelState{dA.ReadyState()}
+	sample := func() {
+		st := dA.ReadyState()
+		if last := sampled[len(sampled)-1]; st != last {
+			sampled = append(sampled, st)
+			if st < last {
+				v.Violation("C20/backward-sampled/"+last.String()+"->"+st.String(), "ReadyState() was observed as %s and later as %s (samples %v); trace %v", last, st, sampled, trace)
+			}
+		}
+	}
 	sendWhenNotOpen := func(where string) {
+		sample()
 		if st := dA.ReadyState(); st != DataChannelStateOpen {
 			if err := dA.Send([]byte("x")); err == nil {
 				v.Violation("C20/send-when-not-open", "Send returned nil while readyState=%s (%s); trace %v", st, where, trace)
